@@ -16,7 +16,7 @@ def run(ctx: Ctx) -> None:
                 "action property InsertIsIso. S->C: for (a sample of) the distinct post-insertion states the two histories are replayed "
                 "on two real Hugr objects, insert_hugr is called, and the returned mapping, both stores (B before/after) and all queries "
                 "compared. C->S: random two-store histories with frequent insertions validated by Trace_HugrStore (InsertIsIso evaluated "
-                "on every real insertion). The builder wrappers insert_nested/cfg/conditional/tail_loop are exercised by the builder checks. "
+                "on every real insertion). The builder wrappers insert_nested/cfg/conditional/tail_loop: every finished program of HugrBuilder.tla with Insert actions replayed. "
                 "non-trivial = B has >= 2 nodes or a link, or a node was deleted before the insertion.")
     ctx.assumptions = ["links compared as bags per port; input port counts of inserted nodes only need to cover their links",
                        "node ids compared up to the bijection given by the returned mapping"]
@@ -57,8 +57,18 @@ def run(ctx: Ctx) -> None:
                           clause="Trace_HugrStore!TNext", leg="C2S")
         if r3.violated and not rej:
             ctx.violation({"action": "?", "field": r3.violated}, {"stdout": r3.stdout[-2500:]}, clause=r3.violated, leg="C2S")
+        # ---- the builders' insert_nested / insert_tail_loop / insert_conditional / insert_cfg: HugrBuilder!Insert (the copy of a template
+        # hangs under the current container, node j -> n + j, links copied, the given wires attached to the copy of the root in order)
+        from . import builder_model
+        builder_model.run(ctx, wd, only_feature="insert")
     finally:
         cleanup(wd)
 
 
-replay = c04.replay
+def replay(path: str) -> int:
+    import json
+    body = json.load(open(path))
+    from . import builder_model
+    if builder_model.replay_case(body):
+        return 0
+    return c04.replay(path)
